@@ -20,17 +20,17 @@ Proof. unfold msg_inner. destruct (cmpZ _ _ _); reflexivity. Qed.
 Lemma msg_inner_sizes c s e : s_sizes (fst (fst (msg_inner c s e))) = s_sizes s.
 Proof. unfold msg_inner. destruct (cmpZ _ _ _); reflexivity. Qed.
 
-Lemma fallback_seq c s num id rp : s_seq (fst (fallback c s num id rp)) = s_seq s.
+Lemma fallback_seq c s num id rp k : s_seq (fst (fallback c s num id rp k)) = s_seq s.
 Proof.
   unfold fallback. destruct rp; [|reflexivity].
-  pose proof (msg_inner_seq c s (mkEv num FAC_INTERNAL fallback_level true (fallback_id id))) as H.
+  pose proof (msg_inner_seq c s (mkEv num FAC_INTERNAL fallback_level true (fallback_id id) k)) as H.
   destruct (msg_inner c s _) as [[s2 r] n2]. exact H.
 Qed.
 
-Lemma fallback_sizes c s num id rp : s_sizes (fst (fallback c s num id rp)) = s_sizes s.
+Lemma fallback_sizes c s num id rp k : s_sizes (fst (fallback c s num id rp k)) = s_sizes s.
 Proof.
   unfold fallback. destruct rp; [|reflexivity].
-  pose proof (msg_inner_sizes c s (mkEv num FAC_INTERNAL fallback_level true (fallback_id id))) as H.
+  pose proof (msg_inner_sizes c s (mkEv num FAC_INTERNAL fallback_level true (fallback_id id) k)) as H.
   destruct (msg_inner c s _) as [[s2 r] n2]. exact H.
 Qed.
 
@@ -39,7 +39,7 @@ Proof. reflexivity. Qed.
 
 Definition ret_of (s : st) (o : op) : option Z :=
   match o with
-  | Msg (Some n) _ _ _ _ _ => Some n
+  | Msg (Some n) _ _ _ _ _ => Some (fst n)
   | Msg None _ _ _ _ _ => Some (s_seq s + 1)
   | MsgBad _ _ => Some (s_seq s + 1)
   | _ => None
@@ -51,8 +51,8 @@ Proof.
   - destruct numo as [n|]; cbn [next_num];
       [ set (s0 := mkSt (s_seq s) _ _ _ _) | rewrite next_num_spec; set (s0 := mkSt (s_seq s + 1) _ _ _ _) ];
       destruct (msg_inner c s0 _) as [[s1 r] n1]; destruct r; unfold msg_catch_all;
-      try (destruct (fallback c s1 _ id rp) as [s2 n2]); reflexivity.
-  - rewrite next_num_spec. unfold msg_catch_all. destruct (fallback c _ _ id rp) as [s2 n2]. reflexivity.
+      try (destruct (fallback c s1 _ id rp _) as [s2 n2]); reflexivity.
+  - rewrite next_num_spec. unfold msg_catch_all. destruct (fallback c _ _ id rp _) as [s2 n2]. reflexivity.
   - reflexivity.
   - reflexivity.
   - destruct (i_rep (s_inc s)) as [r|]; [destruct (r_timer r)|]; reflexivity.
@@ -63,20 +63,20 @@ Proof.
   destruct o as [numo fac lvl okf rp id | rp id | f l n | f l | ]; cbn [step is_auto].
   - destruct numo as [n|].
     + set (s0 := mkSt (s_seq s) _ _ _ _).
-      pose proof (msg_inner_seq c s0 (mkEv n fac lvl okf id)) as H1.
+      pose proof (msg_inner_seq c s0 (mkEv (fst n) fac lvl okf id (snd n))) as H1.
       destruct (msg_inner c s0 _) as [[s1 r] n1]. cbn [fst] in H1. unfold s0 in H1; cbn [s_seq] in H1. destruct r; unfold msg_catch_all.
-      * pose proof (fallback_seq c s1 n id rp) as H2. destruct (fallback c s1 n id rp) as [s2 n2]. cbn [fst] in *.
+      * pose proof (fallback_seq c s1 (fst n) id rp (snd n)) as H2. cbn [kind_of]. destruct (fallback c s1 (fst n) id rp (snd n)) as [s2 n2]. cbn [fst] in *.
         rewrite end_of_call_seq. congruence.
       * cbn [fst]. rewrite end_of_call_seq. exact H1.
     + rewrite next_num_spec. set (s0 := mkSt (s_seq s + 1) _ _ _ _).
-      pose proof (msg_inner_seq c s0 (mkEv (s_seq s + 1) fac lvl okf id)) as H1.
+      pose proof (msg_inner_seq c s0 (mkEv (s_seq s + 1) fac lvl okf id NumInt)) as H1.
       destruct (msg_inner c s0 _) as [[s1 r] n1]. cbn [fst] in H1. unfold s0 in H1; cbn [s_seq] in H1. destruct r; unfold msg_catch_all.
-      * pose proof (fallback_seq c s1 (s_seq s + 1) id rp) as H2. destruct (fallback c s1 _ id rp) as [s2 n2]. cbn [fst] in *.
+      * pose proof (fallback_seq c s1 (s_seq s + 1) id rp NumInt) as H2. cbn [kind_of]. destruct (fallback c s1 _ id rp _) as [s2 n2]. cbn [fst] in *.
         rewrite end_of_call_seq. congruence.
       * cbn [fst]. rewrite end_of_call_seq. exact H1.
   - rewrite next_num_spec. unfold msg_catch_all.
-    pose proof (fallback_seq c (mkSt (s_seq s + 1) (s_sizes s) (s_thr s) (s_bufs s) (s_inc s)) (s_seq s + 1) id rp) as H2.
-    destruct (fallback c _ _ id rp) as [s2 n2]. cbn [fst] in *. rewrite end_of_call_seq. exact H2.
+    pose proof (fallback_seq c (mkSt (s_seq s + 1) (s_sizes s) (s_thr s) (s_bufs s) (s_inc s)) (s_seq s + 1) id rp NumInt) as H2.
+    destruct (fallback c _ _ id rp _) as [s2 n2]. cbn [fst] in *. rewrite end_of_call_seq. exact H2.
   - reflexivity.
   - reflexivity.
   - destruct (i_rep (s_inc s)) as [r|]; [destruct (r_timer r)|]; reflexivity.
@@ -271,11 +271,11 @@ Proof.
   apply add_event_bufs_le; assumption.
 Qed.
 
-Lemma fallback_bufs_le M c s num id rp :
-  0 <= M -> sizes_le M (s_sizes s) -> bufs_le M (s_bufs s) -> bufs_le M (s_bufs (fst (fallback c s num id rp))).
+Lemma fallback_bufs_le M c s num id rp k :
+  0 <= M -> sizes_le M (s_sizes s) -> bufs_le M (s_bufs s) -> bufs_le M (s_bufs (fst (fallback c s num id rp k))).
 Proof.
   intros HM Hs Hb. unfold fallback. destruct rp; [|exact Hb].
-  pose proof (msg_inner_bufs_le M c s (mkEv num FAC_INTERNAL fallback_level true (fallback_id id)) HM Hs Hb) as H.
+  pose proof (msg_inner_bufs_le M c s (mkEv num FAC_INTERNAL fallback_level true (fallback_id id) k) HM Hs Hb) as H.
   destruct (msg_inner c s _) as [[s2 r] n2]. exact H.
 Qed.
 
@@ -291,22 +291,22 @@ Lemma step_bounded M c s o :
 Proof.
   intros HM Ho Hs Hb.
   destruct o as [numo fac lvl okf rp id | rp id | f l n | f l | ]; cbn [step].
-  - set (nn := match numo with Some n => (n, s_seq s) | None => next_num (s_seq s) end).
+  - set (nn := match numo with Some n => (fst n, s_seq s) | None => next_num (s_seq s) end).
     destruct nn as [num seq']. set (s0 := mkSt seq' _ _ _ _).
-    pose proof (msg_inner_bufs_le M c s0 (mkEv num fac lvl okf id) HM Hs Hb) as H1.
-    pose proof (msg_inner_sizes c s0 (mkEv num fac lvl okf id)) as H1s.
+    pose proof (msg_inner_bufs_le M c s0 (mkEv num fac lvl okf id (kind_of numo)) HM Hs Hb) as H1.
+    pose proof (msg_inner_sizes c s0 (mkEv num fac lvl okf id (kind_of numo))) as H1s.
     destruct (msg_inner c s0 _) as [[s1 r] n1]. cbn [fst] in *.
     assert (Hs1 : sizes_le M (s_sizes s1)) by (rewrite H1s; exact Hs).
     destruct r; unfold msg_catch_all.
-    + pose proof (fallback_bufs_le M c s1 num id rp HM Hs1 H1) as H2.
-      pose proof (fallback_sizes c s1 num id rp) as H2s.
-      destruct (fallback c s1 num id rp) as [s2 n2]. cbn [fst] in *.
+    + pose proof (fallback_bufs_le M c s1 num id rp (kind_of numo) HM Hs1 H1) as H2.
+      pose proof (fallback_sizes c s1 num id rp (kind_of numo)) as H2s.
+      destruct (fallback c s1 num id rp _) as [s2 n2]. cbn [fst] in *.
       unfold end_of_call, with_inc; cbn [s_sizes s_bufs]. split; [rewrite H2s; exact Hs1 | exact H2].
     + cbn [fst]. unfold end_of_call, with_inc; cbn [s_sizes s_bufs]. split; assumption.
   - rewrite next_num_spec. unfold msg_catch_all. set (s0 := mkSt _ _ _ _ _).
-    pose proof (fallback_bufs_le M c s0 (s_seq s + 1) id rp HM Hs Hb) as H2.
-    pose proof (fallback_sizes c s0 (s_seq s + 1) id rp) as H2s.
-    destruct (fallback c s0 _ id rp) as [s2 n2]. cbn [fst] in *.
+    pose proof (fallback_bufs_le M c s0 (s_seq s + 1) id rp NumInt HM Hs Hb) as H2.
+    pose proof (fallback_sizes c s0 (s_seq s + 1) id rp NumInt) as H2s.
+    destruct (fallback c s0 _ id rp _) as [s2 n2]. cbn [fst] in *.
     unfold end_of_call, with_inc; cbn [s_sizes s_bufs]. split; [rewrite H2s; exact Hs | exact H2].
   - cbn [fst s_sizes s_bufs]. split; [|exact Hb]. intros f' l'. rewrite limit_of_sset.
     destruct (Z.eqb f' f && Z.eqb l' l); [exact Ho | apply Hs].
@@ -358,6 +358,14 @@ Corollary buffers_bounded_from_init M c ops :
 Proof.
   intros HM Ho. assert (0 <= M) by (unfold DEFAULT_SIZELIMIT in HM; lia).
   apply buffers_bounded; [assumption | exact Ho | apply init_sizes_le; exact HM | apply init_bufs_le; assumption].
+Qed.
+
+Corollary buffers_bounded_segs_from_init M segs :
+  DEFAULT_SIZELIMIT <= M -> Forall (fun cs => Forall (op_limit_le M) (snd cs)) segs ->
+  forall f l, Z.of_nat (List.length (buf_get (s_bufs (run_segs init segs)) f l)) <= M.
+Proof.
+  intros H1 H2. assert (0 <= M) by (unfold DEFAULT_SIZELIMIT in H1; lia).
+  apply buffers_bounded_segs; [assumption | exact H2 | apply init_sizes_le; exact H1 | apply init_bufs_le; assumption].
 Qed.
 
 (* ================================================================== C. Subscription *)
@@ -461,38 +469,148 @@ Proof.
 Qed.
 
 
+(* ================================================================== B'. membership in the buffers *)
+Lemma aget_in {V} (k : Z) (l : list (Z * V)) v : aget k l = Some v -> exists k', In (k', v) l.
+Proof.
+  induction l as [|[k' v'] t IH]; intros Hv; [discriminate|]. cbn [aget] in Hv.
+  destruct (k =? k'); [inversion Hv; subst; exists k'; left; reflexivity|].
+  destruct (IH Hv) as [k2 Hk2]. exists k2. right. exact Hk2.
+Qed.
+
+Lemma aset_in {V} (k : Z) (v : V) l k' v' : In (k', v') (aset k v l) -> v' = v \/ In (k', v') l.
+Proof.
+  induction l as [|[k0 v0] t IH]; cbn [aset].
+  - intros [H|[]]. inversion H; left; reflexivity.
+  - destruct (k =? k0).
+    + intros [H|H]; [inversion H; left; reflexivity | right; right; exact H].
+    + intros [H|H]; [right; left; exact H|]. destruct (IH H) as [ -> |H']; [left; reflexivity | right; right; exact H'].
+Qed.
+
+Lemma buf_get_in_all b f l x : In x (buf_get b f l) -> In x (all_buffered b).
+Proof.
+  unfold buf_get, dict_of, all_buffered. destruct (aget f b) as [d|] eqn:E1; [|intros []].
+  destruct (aget l d) as [q|] eqn:E2; [|intros []]. intros Hx.
+  destruct (aget_in _ _ _ E1) as [kf Hf]. destruct (aget_in _ _ _ E2) as [kl Hl].
+  apply in_flat_map. exists (kf, d). split; [exact Hf|]. cbn [snd]. apply in_flat_map. exists (kl, q). split; assumption.
+Qed.
+
+Lemma all_buffered_buf_set b f l q x : In x (all_buffered (buf_set b f l q)) -> In x q \/ In x (all_buffered b).
+Proof.
+  unfold all_buffered, buf_set. intros H. apply in_flat_map in H. destruct H as ([kf d] & Hd & Hx). cbn [snd] in Hx.
+  destruct (aset_in _ _ _ _ _ Hd) as [ -> |Hd'].
+  - apply in_flat_map in Hx. destruct Hx as ([kl q'] & Hq & Hx). cbn [snd] in Hx.
+    destruct (aset_in _ _ _ _ _ Hq) as [ -> |Hq']; [left; exact Hx|]. right.
+    unfold dict_of in Hq'. destruct (aget f b) as [d0|] eqn:E; [|destruct Hq'].
+    destruct (aget_in _ _ _ E) as [k0 H0]. apply in_flat_map. exists (k0, d0). split; [exact H0|].
+    cbn [snd]. apply in_flat_map. exists (kl, q'). split; assumption.
+  - right. apply in_flat_map. exists (kf, d). split; assumption.
+Qed.
+
+Lemma skipn_in {A} k (l : list A) x : In x (skipn k l) -> In x l.
+Proof. revert l. induction k as [|k IH]; intros l H; [exact H|]. destruct l; [destruct H|]. right. apply IH. exact H. Qed.
+
+Lemma add_event_bufs_in c sz b i e x : In x (all_buffered (x_bufs (add_event c sz b i e))) -> In x (all_buffered b) \/ x = e.
+Proof.
+  destruct (add_event_x_bufs c sz b i e) as (q' & -> & (k & ->) & _). intros H.
+  assert (G : In x (buf_get b (e_fac e) (e_lvl e) ++ [e]) -> In x (all_buffered b) \/ x = e).
+  { intros Hx. apply in_app_or in Hx. destruct Hx as [Hx|[ <- |[]]]; [left; eapply buf_get_in_all; exact Hx | right; reflexivity]. }
+  apply all_buffered_buf_set in H. destruct H as [H|H]; [apply G; eapply skipn_in; exact H|].
+  apply all_buffered_buf_set in H. destruct H as [H|H]; [apply G; exact H | left; exact H].
+Qed.
+
+Lemma msg_inner_bufs_in c s e x :
+  In x (all_buffered (s_bufs (fst (fst (msg_inner c s e))))) -> In x (all_buffered (s_bufs s)) \/ x = e.
+Proof.
+  unfold msg_inner. destruct (cmpZ threshold_drop_cmp (e_lvl e) (threshold_of (s_thr s) (e_fac e))); cbn [fst s_bufs];
+    [left; assumption | apply add_event_bufs_in].
+Qed.
+
+
 (* ================================================================== D. incidents *)
 
-Lemma insert_perm e l : Permutation (insert_by_num e l) (e :: l).
+Lemma insert_perm k e l : Permutation (insert_by_key k e l) (e :: l).
 Proof.
-  induction l as [|x t IH]; cbn [insert_by_num]; [apply Permutation_refl|].
-  destruct (e_num e <=? e_num x); [apply Permutation_refl|].
+  induction l as [|x t IH]; cbn [insert_by_key]; [apply Permutation_refl|].
+  destruct (key_of k e <=? key_of k x); [apply Permutation_refl|].
   eapply perm_trans; [apply perm_skip, IH | apply perm_swap].
 Qed.
 
-Lemma sort_perm l : Permutation (sort_by_num l) l.
+Lemma sort_with_perm k l : Permutation (sort_with k l) l.
 Proof.
-  induction l as [|x t IH]; cbn [sort_by_num fold_right]; [constructor|].
+  induction l as [|x t IH]; cbn [sort_with fold_right]; [constructor|].
   eapply perm_trans; [apply insert_perm | apply perm_skip, IH].
 Qed.
+
+Lemma sort_perm l : Permutation (sort_by_num l) l.
+Proof. apply sort_with_perm. Qed.
 
 Lemma sort_in l x : In x (sort_by_num l) <-> In x l.
 Proof. split; apply Permutation_in; [apply sort_perm | apply Permutation_sym, sort_perm]. Qed.
 
-Definition num_le (a b : event) : Prop := e_num a <= e_num b.
+(* the order a sort establishes: by KEY.  Under the translated key an integer number is its own key and every other
+   object has the key d (= -1): integer-numbered events come out in number order (int_num_le, sort_sorted_ints), the
+   others sit where -1 sits, in buffer order among themselves (sort_stable_odd) *)
+Definition key_le (k : numkey) (a b : event) : Prop := key_of k a <= key_of k b.
+Definition num_le : event -> event -> Prop := key_le incident_sort_key.
+Definition int_num_le (a b : event) : Prop := is_int a = true -> is_int b = true -> e_num a <= e_num b.
 
-Lemma insert_sorted e l : StronglySorted num_le l -> StronglySorted num_le (insert_by_num e l).
+Lemma insert_sorted k e l : StronglySorted (key_le k) l -> StronglySorted (key_le k) (insert_by_key k e l).
 Proof.
-  induction 1 as [|x t Hs IH Hx]; cbn [insert_by_num]; [repeat constructor|].
-  destruct (e_num e <=? e_num x) eqn:E.
+  induction 1 as [|x t Hs IH Hx]; cbn [insert_by_key]; [repeat constructor|].
+  destruct (key_of k e <=? key_of k x) eqn:E.
   - apply Z.leb_le in E. constructor; [constructor; assumption|]. constructor; [exact E|].
-    eapply Forall_impl; [|exact Hx]. unfold num_le. intros; lia.
+    eapply Forall_impl; [|exact Hx]. unfold key_le. intros; lia.
   - apply Z.leb_gt in E. constructor; [exact IH|].
-    eapply Permutation_Forall; [apply Permutation_sym, insert_perm|]. constructor; [unfold num_le; lia | exact Hx].
+    eapply Permutation_Forall; [apply Permutation_sym, insert_perm|]. constructor; [unfold key_le; lia | exact Hx].
 Qed.
 
+Lemma sort_with_sorted k l : StronglySorted (key_le k) (sort_with k l).
+Proof. induction l as [|x t IH]; cbn [sort_with fold_right]; [constructor | apply insert_sorted, IH]. Qed.
+
 Lemma sort_sorted l : StronglySorted num_le (sort_by_num l).
-Proof. induction l as [|x t IH]; cbn [sort_by_num fold_right]; [constructor | apply insert_sorted, IH]. Qed.
+Proof. apply sort_with_sorted. Qed.
+
+Lemma sorted_weaken {A} (R S : A -> A -> Prop) l : (forall a b, R a b -> S a b) -> StronglySorted R l -> StronglySorted S l.
+Proof.
+  intros HRS. induction 1 as [|x t Hs IH Hx]; constructor; [exact IH|]. eapply Forall_impl; [|exact Hx]. apply HRS.
+Qed.
+
+Lemma key_le_ints d a b : key_le (KeyIntElse d) a b -> int_num_le a b.
+Proof. unfold key_le, key_of, int_num_le. intros H Ha Hb. rewrite Ha, Hb in H. exact H. Qed.
+
+Lemma sort_sorted_ints l : StronglySorted int_num_le (sort_by_num l).
+Proof. eapply sorted_weaken; [|apply sort_sorted]. unfold num_le, incident_sort_key. apply key_le_ints. Qed.
+
+(* stability: the events whose keys are equal keep their order; in particular the non-integer ones *)
+Lemma insert_filter_odd d e l :
+  filter (fun x => negb (is_int x)) (insert_by_key (KeyIntElse d) e l) =
+  filter (fun x => negb (is_int x)) (e :: l) \/ is_int e = true.
+Proof.
+  destruct (is_int e) eqn:Ee; [right; reflexivity|left].
+  induction l as [|x t IH]; cbn [insert_by_key]; [reflexivity|].
+  destruct (key_of (KeyIntElse d) e <=? key_of (KeyIntElse d) x) eqn:E; [reflexivity|].
+  cbn [filter] in *. rewrite Ee in *. cbn [negb] in *.
+  destruct (is_int x) eqn:Ex; cbn [negb]; [exact IH|].
+  exfalso. unfold key_of in E. rewrite Ee, Ex in E. rewrite Z.leb_refl in E. discriminate.
+Qed.
+
+Lemma insert_filter_int d e l : is_int e = true ->
+  filter (fun x => negb (is_int x)) (insert_by_key (KeyIntElse d) e l) = filter (fun x => negb (is_int x)) l.
+Proof.
+  intros Ee. induction l as [|x t IH]; cbn [insert_by_key filter]; [rewrite Ee; reflexivity|].
+  destruct (key_of (KeyIntElse d) e <=? key_of (KeyIntElse d) x); cbn [filter]; [rewrite Ee; reflexivity|].
+  rewrite IH. reflexivity.
+Qed.
+
+Lemma sort_stable_odd l : filter (fun x => negb (is_int x)) (sort_by_num l) = filter (fun x => negb (is_int x)) l.
+Proof.
+  unfold sort_by_num, incident_sort_key.
+  induction l as [|x t IH]; cbn [sort_with fold_right]; [reflexivity|].
+  destruct (is_int x) eqn:Ex.
+  - rewrite insert_filter_int by exact Ex. fold (sort_with (KeyIntElse (-1)) t). rewrite IH. cbn [filter]. rewrite Ex. reflexivity.
+  - destruct (insert_filter_odd (-1) x (fold_right (insert_by_key (KeyIntElse (-1))) [] t)) as [H|H]; [|congruence].
+    rewrite H. cbn [filter]. rewrite Ex. cbn [negb]. f_equal. exact IH.
+Qed.
 
 Lemma write_all_ok l : forallb enc l = true -> write_all l = (l, true).
 Proof.
@@ -506,30 +624,47 @@ Proof.
   eapply Permutation_in; [apply Permutation_sym, P | exact Hx].
 Qed.
 
-(* incident_declared when the trigger and everything buffered can be encoded *)
+(* no buffered event's number is an object on which isinstance(.., int) raises: the exact condition under which the
+   translated sort key is total (sort_raises (KeyIntElse d) l = existsb is_hostile l) *)
+Definition nohost (b : bufs_t) : Prop := existsb is_hostile (all_buffered b) = false.
+
+Lemma nohost_in b : nohost b <-> (forall x, In x (all_buffered b) -> is_hostile x = false).
+Proof.
+  unfold nohost. split.
+  - intros H x Hx. destruct (is_hostile x) eqn:E; [|reflexivity].
+    assert (existsb is_hostile (all_buffered b) = true) by (apply existsb_exists; exists x; split; assumption). congruence.
+  - intros H. destruct (existsb is_hostile (all_buffered b)) eqn:E; [|reflexivity].
+    apply existsb_exists in E. destruct E as (x & Hx & Hh). rewrite (H x Hx) in Hh. discriminate.
+Qed.
+
+Lemma sort_total b : nohost b -> sort_raises incident_sort_key (all_buffered b) = false.
+Proof. intros H. exact H. Qed.
+
+(* incident_declared when the sort does not raise and the trigger and everything buffered can be encoded *)
 Lemma incident_stages_ok c b trig :
-  enc trig = true -> forallb enc (all_buffered b) = true ->
+  nohost b -> enc trig = true -> forallb enc (all_buffered b) = true ->
   fold_left (inc_stage_step c b trig) incident_stages (mkAcc [] false false false false) =
   mkAcc (sort_by_num (all_buffered b)) (c_trailing c) (c_trailing c) (negb (c_trailing c)) false.
 Proof.
-  intros Ht Hb.
+  intros Hh Ht Hb.
   assert (W : write_all (sort_by_num (all_buffered b)) = (sort_by_num (all_buffered b), true)).
   { apply write_all_ok. eapply forallb_perm; [apply Permutation_sym, sort_perm | exact Hb]. }
+  pose proof (sort_total b Hh) as Hs.
   unfold incident_stages. cbn [fold_left]. unfold inc_stage_step.
   destruct (c_trailing c) eqn:Ec;
-    repeat (first [ rewrite Ht | rewrite W | progress cbn [negb app a_failed a_lines a_registered a_timer a_finished] ]);
+    repeat (first [ rewrite Ht | rewrite Hs | rewrite W | progress cbn [negb app a_failed a_lines a_registered a_timer a_finished] ]);
     reflexivity.
 Qed.
 
 Lemma incident_declared_ok c b i trig :
-  enc trig = true -> forallb enc (all_buffered b) = true ->
+  nohost b -> enc trig = true -> forallb enc (all_buffered b) = true ->
   incident_declared c b i trig =
     if c_trailing c
     then (mkInc (Some (mkRep trig (sort_by_num (all_buffered b)) TRAILING_EVENT_LIMIT true)) (i_zombie i) (i_declared i)
                 (i_recorded i) (i_files i) (i_junk i), false)
     else (publish (mkRep trig (sort_by_num (all_buffered b)) TRAILING_EVENT_LIMIT false) i, false).
 Proof.
-  intros Ht Hb. unfold incident_declared. rewrite (incident_stages_ok c b trig Ht Hb).
+  intros Hh Ht Hb. unfold incident_declared. rewrite (incident_stages_ok c b trig Hh Ht Hb).
   destruct (c_trailing c); cbn [negb a_failed a_lines a_registered a_timer a_finished]; reflexivity.
 Qed.
 
@@ -539,26 +674,44 @@ Proof. reflexivity. Qed.
 Lemma forallb_enc_total l : forallb enc l = true.
 Proof. apply forallb_forall. intros; apply enc_total. Qed.
 
-Lemma incident_declared_never_fails c b i trig :
+(* ... and when it does raise (a buffered event whose number makes isinstance raise): the header is written, a trailing
+   reporter is already subscribed, then events.sort raises: incident_declared raises, NOTHING is published; the
+   NonTrailing reporter's two files are abandoned for ever (i_junk + 1), the trailing one stays registered without a
+   timer (stuck: it never finishes and swallows every later trigger) *)
+Lemma incident_declared_lost c b i trig :
+  existsb is_hostile (all_buffered b) = true ->
+  incident_declared c b i trig =
+    if c_trailing c
+    then (mkInc (Some (mkRep trig [] TRAILING_EVENT_LIMIT false)) true (i_declared i) (i_recorded i) (i_files i) (i_junk i), true)
+    else (mkInc None true (i_declared i) (i_recorded i) (i_files i) (i_junk i + 1), true).
+Proof.
+  intros Hh. unfold incident_declared, incident_stages. cbn [fold_left]. unfold inc_stage_step.
+  assert (Hs : sort_raises incident_sort_key (all_buffered b) = true) by exact Hh.
+  destruct (c_trailing c) eqn:Ec;
+    repeat (first [ rewrite (enc_total trig) | rewrite Hs | progress cbn [negb app a_failed a_lines a_registered a_timer a_finished] ]);
+    reflexivity.
+Qed.
+
+Lemma incident_declared_never_fails c b i trig : nohost b ->
   snd (incident_declared c b i trig) = false /\ i_junk (fst (incident_declared c b i trig)) = i_junk i /\
   i_zombie (fst (incident_declared c b i trig)) = i_zombie i.
 Proof.
-  rewrite (incident_declared_ok c b i trig (enc_total _) (forallb_enc_total _)).
+  intros Hh. rewrite (incident_declared_ok c b i trig Hh (enc_total _) (forallb_enc_total _)).
   destruct (c_trailing c); cbn; repeat split; reflexivity.
 Qed.
 
-Lemma declare_incident_junk c b i e : i_junk (fst (declare_incident c b i e)) = i_junk i.
+Lemma declare_incident_junk c b i e : nohost b -> i_junk (fst (declare_incident c b i e)) = i_junk i.
 Proof.
-  unfold declare_incident. destruct (one_reporter_at_a_time && (is_some (i_rep i) || i_zombie i)); [reflexivity|].
+  intros Hh. unfold declare_incident. destruct (one_reporter_at_a_time && (is_some (i_rep i) || i_zombie i)); [reflexivity|].
   destruct (c_fault c); try reflexivity;
     match goal with |- context [incident_declared c b ?i1 e] =>
-      destruct (incident_declared_never_fails c b i1 e) as (A & B & C) end; exact B.
+      destruct (incident_declared_never_fails c b i1 e Hh) as (A & B & C) end; exact B.
 Qed.
 
-Lemma qualifier_stage_junk c b i e : i_junk (fst (qualifier_stage c b i e)) = i_junk i.
+Lemma qualifier_stage_junk c b i e : nohost b -> i_junk (fst (qualifier_stage c b i e)) = i_junk i.
 Proof.
-  unfold qualifier_stage. destruct (c_qual c && _); [|reflexivity].
-  destruct (c_fault c) eqn:F; try reflexivity; apply declare_incident_junk.
+  intros Hh. unfold qualifier_stage. destruct (c_qual c && _); [|reflexivity].
+  destruct (c_fault c) eqn:F; try reflexivity; apply declare_incident_junk; exact Hh.
 Qed.
 
 (* ---- the trailing events *)
@@ -607,11 +760,15 @@ Lemma trailing_limit_publishes i r ev :
   trailing_event i ev = publish (mkRep (r_trigger r) (r_lines r) (-1) (r_timer r)) i.
 Proof. intros Hr H0. unfold trailing_event. rewrite Hr, H0. reflexivity. Qed.
 
-(* ---- one unrepresentable event is harmless: full strength on the current tree (serialize_total = true) *)
+(* ---- one unrepresentable event is harmless: full strength in e_ok on the current tree (serialize_total = true).
+   EXACT guard in the numbers: no event in the buffers at the moment of the snapshot has a number on which
+   isinstance(.., int) raises (nohost; NumOdd numbers -- 'x', None, 1.5, a list, an object -- are INSIDE the guard since
+   7a22019).  incident_lost_when_sort_raises below is the other side of the guard. *)
 Theorem incident_recorded c sz b i e :
   c_fault c = NoFault -> c_qual c = true -> incident_level <= e_lvl e -> i_rep i = None -> i_zombie i = false ->
   0 <= limit_of sz (e_fac e) (e_lvl e) ->
   let a := add_event c sz b i e in
+  nohost (x_bufs a) ->
   x_raised a = false /\
   (c_trailing c = false ->
      i_files (x_inc a) = i_files i ++ [e :: sort_by_num (all_buffered (x_bufs a))] /\
@@ -625,9 +782,9 @@ Proof.
   destruct r; [destruct (H4 eq_refl); lia|].
   rewrite H5. unfold qualifier_stage. rewrite Hq, Hf. unfold incident_cmp, cmpZ. cbn [andb].
   destruct (incident_level <=? e_lvl e) eqn:E; [|apply Z.leb_gt in E; lia].
-  set (b' := buf_set _ _ _ q').
+  set (b' := buf_set _ _ _ q'). cbn [x_bufs]. intros Hh.
   unfold declare_incident. rewrite Hr, Hz, Hf. unfold one_reporter_at_a_time. cbn [is_some orb andb].
-  rewrite (incident_declared_ok c b' _ e (enc_total _) (forallb_enc_total _)).
+  rewrite (incident_declared_ok c b' _ e Hh (enc_total _) (forallb_enc_total _)).
   destruct (c_trailing c); cbn [fst snd x_raised x_inc x_bufs].
   - split; [reflexivity|]. split; [discriminate|]. intros _. cbn. split; reflexivity.
   - split; [reflexivity|]. split; [|discriminate]. intros _. cbn. repeat split; reflexivity.
@@ -638,7 +795,7 @@ Theorem incident_recorded_guarded c sz b i e :
   c_fault c = NoFault -> c_qual c = true -> incident_level <= e_lvl e -> i_rep i = None -> i_zombie i = false ->
   0 <= limit_of sz (e_fac e) (e_lvl e) ->
   let a := add_event c sz b i e in
-  enc e = true -> forallb enc (all_buffered (x_bufs a)) = true ->
+  nohost (x_bufs a) -> enc e = true -> forallb enc (all_buffered (x_bufs a)) = true ->
   x_raised a = false /\
   (c_trailing c = false -> i_files (x_inc a) = i_files i ++ [e :: sort_by_num (all_buffered (x_bufs a))]) /\
   (c_trailing c = true ->
@@ -649,12 +806,38 @@ Proof.
   destruct r; [destruct (H4 eq_refl); lia|].
   rewrite H5. unfold qualifier_stage. rewrite Hq, Hf. unfold incident_cmp, cmpZ. cbn [andb].
   destruct (incident_level <=? e_lvl e) eqn:E; [|apply Z.leb_gt in E; lia].
-  set (b' := buf_set _ _ _ q'). cbn [x_bufs]. intros He Hb.
+  set (b' := buf_set _ _ _ q'). cbn [x_bufs]. intros Hh He Hb.
   unfold declare_incident. rewrite Hr, Hz, Hf. unfold one_reporter_at_a_time. cbn [is_some orb andb].
-  rewrite (incident_declared_ok c b' _ e He Hb).
+  rewrite (incident_declared_ok c b' _ e Hh He Hb).
   destruct (c_trailing c); cbn [fst snd x_raised x_inc x_bufs].
   - split; [reflexivity|]. split; [discriminate|]. intros _. reflexivity.
   - split; [reflexivity|]. split; [|discriminate]. intros _. reflexivity.
+Qed.
+
+(* OUTSIDE the guard (the real code does this; oracle witness: num = an object whose __class__ property raises): one
+   buffered event on whose number isinstance(.., int) raises makes events.sort raise inside incident_declared: _msg
+   raises (msg's catch-all turns that into an internal-error event), no file is published, the NonTrailing reporter's
+   .flog / .flog.bz2.tmp are abandoned, the trailing reporter stays subscribed for ever *)
+Theorem incident_lost_when_sort_raises c sz b i e :
+  c_fault c = NoFault -> c_qual c = true -> incident_level <= e_lvl e -> i_rep i = None -> i_zombie i = false ->
+  0 <= limit_of sz (e_fac e) (e_lvl e) ->
+  let a := add_event c sz b i e in
+  existsb is_hostile (all_buffered (x_bufs a)) = true ->
+  x_raised a = true /\ i_files (x_inc a) = i_files i /\ i_recorded (x_inc a) = i_recorded i /\
+  (c_trailing c = false -> i_junk (x_inc a) = i_junk i + 1 /\ i_rep (x_inc a) = None) /\
+  (c_trailing c = true -> i_rep (x_inc a) = Some (mkRep e [] TRAILING_EVENT_LIMIT false)).
+Proof.
+  intros Hf Hq Hl Hr Hz Hlim. cbv zeta.
+  destruct (add_event_unfold c sz b i e) as (q' & r & H1 & H2 & H3 & H4 & H5). cbv zeta in H5.
+  destruct r; [destruct (H4 eq_refl); lia|].
+  rewrite H5. unfold qualifier_stage. rewrite Hq, Hf. unfold incident_cmp, cmpZ. cbn [andb].
+  destruct (incident_level <=? e_lvl e) eqn:E; [|apply Z.leb_gt in E; lia].
+  set (b' := buf_set _ _ _ q'). cbn [x_bufs]. intros Hh.
+  unfold declare_incident. rewrite Hr, Hz, Hf. unfold one_reporter_at_a_time. cbn [is_some orb andb].
+  rewrite (incident_declared_lost c b' _ e Hh).
+  destruct (c_trailing c); cbn [fst snd x_raised x_inc x_bufs i_files i_recorded i_junk i_rep].
+  - split; [reflexivity|]. split; [reflexivity|]. split; [reflexivity|]. split; [discriminate|]. intros _. reflexivity.
+  - split; [reflexivity|]. split; [reflexivity|]. split; [reflexivity|]. split; [|discriminate]. intros _. split; reflexivity.
 Qed.
 
 (* the trigger itself is part of what was buffered (unless its buffer is configured to hold nothing) *)
@@ -681,50 +864,83 @@ Qed.
 
 (* ---- nothing is ever abandoned: over ANY history no incident is left as .flog/.bz2.tmp, and no reporter is left
         referenced-but-dead between calls *)
-Lemma add_event_junk c sz b i e : i_junk (x_inc (add_event c sz b i e)) = i_junk i.
+Lemma nohost_add_event c sz b i e : nohost b -> is_hostile e = false -> nohost (x_bufs (add_event c sz b i e)).
 Proof.
-  destruct (add_event_unfold c sz b i e) as (q' & r & H1 & H2 & H3 & H4 & H5). cbv zeta in H5. rewrite H5.
-  destruct r; [reflexivity|]. cbn [x_inc]. apply qualifier_stage_junk.
+  rewrite !nohost_in. intros Hb He x Hx.
+  destruct (add_event_bufs_in c sz b i e x Hx) as [H| -> ]; [apply Hb; exact H | exact He].
 Qed.
 
-Lemma msg_inner_junk c s e : i_junk (s_inc (fst (fst (msg_inner c s e)))) = i_junk (s_inc s).
-Proof. unfold msg_inner. destruct (cmpZ _ _ _); cbn [fst s_inc]; [reflexivity | apply add_event_junk]. Qed.
-
-Lemma fallback_junk c s num id rp : i_junk (s_inc (fst (fallback c s num id rp))) = i_junk (s_inc s).
+Lemma add_event_junk c sz b i e : nohost b -> is_hostile e = false -> i_junk (x_inc (add_event c sz b i e)) = i_junk i.
 Proof.
-  unfold fallback. destruct rp; [|reflexivity].
-  pose proof (msg_inner_junk c s (mkEv num FAC_INTERNAL fallback_level true (fallback_id id))) as H.
+  intros Hb He. pose proof (nohost_add_event c sz b i e Hb He) as Hn.
+  destruct (add_event_unfold c sz b i e) as (q' & r & H1 & H2 & H3 & H4 & H5). cbv zeta in H5. rewrite H5 in Hn |- *.
+  destruct r; [reflexivity|]. cbn [x_inc x_bufs] in *. apply qualifier_stage_junk. exact Hn.
+Qed.
+
+Lemma msg_inner_junk c s e : nohost (s_bufs s) -> is_hostile e = false ->
+  i_junk (s_inc (fst (fst (msg_inner c s e)))) = i_junk (s_inc s) /\ nohost (s_bufs (fst (fst (msg_inner c s e)))).
+Proof.
+  intros Hb He. unfold msg_inner. destruct (cmpZ _ _ _); cbn [fst s_inc s_bufs]; [split; [reflexivity | exact Hb]|].
+  split; [apply add_event_junk; assumption | apply nohost_add_event; assumption].
+Qed.
+
+Lemma fallback_junk c s num id rp k : nohost (s_bufs s) -> k <> NumHostile ->
+  i_junk (s_inc (fst (fallback c s num id rp k))) = i_junk (s_inc s) /\ nohost (s_bufs (fst (fallback c s num id rp k))).
+Proof.
+  intros Hb Hk. unfold fallback. destruct rp; [|split; [reflexivity | exact Hb]].
+  assert (He : is_hostile (mkEv num FAC_INTERNAL fallback_level true (fallback_id id) k) = false)
+    by (unfold is_hostile; cbn [e_numk]; destruct k; try reflexivity; congruence).
+  pose proof (msg_inner_junk c s _ Hb He) as H.
   destruct (msg_inner c s _) as [[s2 r] n2]. exact H.
 Qed.
 
 Lemma end_of_call_junk s n : i_junk (s_inc (end_of_call s n)) = i_junk (s_inc s).
 Proof. unfold end_of_call, with_inc. cbn [s_inc i_junk]. apply trailing_fold_junk. Qed.
 
-Lemma step_junk c s o : i_junk (s_inc (fst (step c s o))) = i_junk (s_inc s).
+Lemma kind_of_not_hostile numo fac lvl okf rp id : op_not_hostile (Msg numo fac lvl okf rp id) -> kind_of numo <> NumHostile.
+Proof. destruct numo as [[n k]|]; cbn [op_not_hostile kind_of snd]; [destruct k; intros H; try discriminate; destruct H | discriminate]. Qed.
+
+Lemma step_junk c s o : op_not_hostile o -> nohost (s_bufs s) ->
+  i_junk (s_inc (fst (step c s o))) = i_junk (s_inc s) /\ nohost (s_bufs (fst (step c s o))).
 Proof.
+  intros Ho Hb.
   destruct o as [numo fac lvl okf rp id | rp id | f l n | f l | ]; cbn [step].
-  - set (nn := match numo with Some n => (n, s_seq s) | None => next_num (s_seq s) end).
+  - pose proof (kind_of_not_hostile numo fac lvl okf rp id Ho) as Hk.
+    set (nn := match numo with Some n => (fst n, s_seq s) | None => next_num (s_seq s) end).
     destruct nn as [num seq']. set (s0 := mkSt seq' _ _ _ _).
-    pose proof (msg_inner_junk c s0 (mkEv num fac lvl okf id)) as H1.
-    destruct (msg_inner c s0 _) as [[s1 r] n1]. cbn [fst] in H1. unfold s0 in H1; cbn [s_inc] in H1.
+    assert (He : is_hostile (mkEv num fac lvl okf id (kind_of numo)) = false)
+      by (unfold is_hostile; cbn [e_numk]; destruct (kind_of numo); try reflexivity; congruence).
+    pose proof (msg_inner_junk c s0 (mkEv num fac lvl okf id (kind_of numo)) Hb He) as [H1 N1].
+    destruct (msg_inner c s0 _) as [[s1 r] n1]. cbn [fst] in H1, N1. unfold s0 in H1; cbn [s_inc] in H1.
     destruct r; unfold msg_catch_all.
-    + pose proof (fallback_junk c s1 num id rp) as H2. destruct (fallback c s1 num id rp) as [s2 n2]. cbn [fst] in *.
-      rewrite end_of_call_junk. congruence.
-    + cbn [fst]. rewrite end_of_call_junk. exact H1.
+    + pose proof (fallback_junk c s1 num id rp (kind_of numo) N1 Hk) as [H2 N2].
+      destruct (fallback c s1 num id rp _) as [s2 n2]. cbn [fst] in *.
+      rewrite end_of_call_junk. split; [congruence | exact N2].
+    + cbn [fst]. rewrite end_of_call_junk. split; [exact H1 | exact N1].
   - rewrite next_num_spec. unfold msg_catch_all. set (s0 := mkSt _ _ _ _ _).
-    pose proof (fallback_junk c s0 (s_seq s + 1) id rp) as H2. destruct (fallback c s0 _ id rp) as [s2 n2]. cbn [fst] in *.
-    rewrite end_of_call_junk. exact H2.
-  - reflexivity.
-  - reflexivity.
-  - destruct (i_rep (s_inc s)) as [r|]; [destruct (r_timer r)|]; reflexivity.
+    assert (Hk : NumInt <> NumHostile) by discriminate.
+    pose proof (fallback_junk c s0 (s_seq s + 1) id rp NumInt Hb Hk) as [H2 N2].
+    destruct (fallback c s0 _ id rp _) as [s2 n2]. cbn [fst] in *.
+    rewrite end_of_call_junk. split; [exact H2 | exact N2].
+  - split; [reflexivity | exact Hb].
+  - split; [reflexivity | exact Hb].
+  - destruct (i_rep (s_inc s)) as [r|]; [destruct (r_timer r)|]; (split; [reflexivity | exact Hb]).
 Qed.
 
-Theorem nothing_abandoned c ops : forall s, i_junk (s_inc (fst (run c s ops))) = i_junk (s_inc s).
+(* over any history in which no call passes a num= on which isinstance(.., int) raises *)
+Theorem nothing_abandoned c ops : forall s, Forall op_not_hostile ops -> nohost (s_bufs s) ->
+  i_junk (s_inc (fst (run c s ops))) = i_junk (s_inc s).
 Proof.
-  induction ops as [|o t IH]; intros s; [reflexivity|]. cbn [run].
-  pose proof (step_junk c s o) as H. destruct (step c s o) as [s1 r]. cbn [fst] in H.
-  specialize (IH s1). destruct (run c s1 t) as [s2 rs]. cbn [fst] in *. congruence.
+  induction ops as [|o t IH]; intros s Ho Hb; [reflexivity|]. inversion Ho; subst. cbn [run].
+  pose proof (step_junk c s o H1 Hb) as [H N]. destruct (step c s o) as [s1 r]. cbn [fst] in H, N.
+  specialize (IH s1 H2 N). destruct (run c s1 t) as [s2 rs]. cbn [fst] in *. congruence.
 Qed.
+
+Lemma nohost_init : nohost (s_bufs init).
+Proof. reflexivity. Qed.
+
+Theorem nothing_abandoned_from_init c ops : Forall op_not_hostile ops -> i_junk (s_inc (fst (run c init ops))) = 0.
+Proof. intros H. rewrite (nothing_abandoned c ops init H nohost_init). reflexivity. Qed.
 
 (* a recording in progress always has its timer: it ends after TRAILING_DELAY at the latest *)
 Definition rep_timed (i : inc_st) : Prop := match i_rep i with Some r => r_timer r = true | None => True end.
@@ -740,7 +956,7 @@ Definition ev_ids (l : list event) : list Z := map e_id l.
 
 (* numbers: three logger-numbered calls (one of them failing inside _msg) interleaved with a caller-numbered one *)
 Example ex_numbers :
-  snd (run (mkCfg true true NoFault) init [Msg None 0 20 true true 0; Msg (Some 7) 0 20 true true 1; MsgBad false 2; Msg None 2 30 false true 3])
+  snd (run (mkCfg true true NoFault) init [Msg None 0 20 true true 0; Msg (Some (7, NumInt)) 0 20 true true 1; MsgBad false 2; Msg None 2 30 false true 3])
   = [Some 0; Some 7; Some 1; Some 2].
 Proof. vm_compute. reflexivity. Qed.
 
@@ -800,21 +1016,91 @@ Example ex_fault_qualifier_bounded :
   ev_ids (buf_get (s_bufs s) 0 35) = [2] /\ i_declared (s_inc s) = 0.
 Proof. vm_compute. split; reflexivity. Qed.
 
+(* non-integer numbers (finding of the second strangers' review, fixed in 7a22019; oracle/incident-lost-noninteger-num).
+   msg('a', num='x'); msg('b'); msg('trigger', level=BAD); msg('later', level=BAD): both incidents are recorded, each
+   file holds the odd event (first: its key is -1) and everything else buffered *)
+Definition odd_history (k : numkind) : list op :=
+  [Msg (Some (900, k)) 0 20 true true 0; Msg None 0 20 true true 1; Msg None 0 40 true true 2; Msg None 0 40 true true 3].
+
+Example ex_odd_num_recorded :
+  let s := fst (run (mkCfg true false NoFault) init (odd_history NumOdd)) in
+  map ev_ids (i_files (s_inc s)) = [[2; 0; 1; 2]; [3; 0; 1; 2; 3]] /\ i_recorded (s_inc s) = 2 /\ i_junk (s_inc s) = 0 /\
+  snd (run (mkCfg true false NoFault) init (odd_history NumOdd)) = [Some 900; Some 0; Some 1; Some 2].
+Proof. vm_compute. repeat split; reflexivity. Qed.
+
+Example ex_odd_num_recorded_trailing :
+  let s := fst (run (mkCfg true true NoFault) init (odd_history NumOdd ++ [Timer])) in
+  map ev_ids (i_files (s_inc s)) = [[2; 0; 1; 2; 3]] /\ i_recorded (s_inc s) = 1 /\ i_junk (s_inc s) = 0 /\ i_rep (s_inc s) = None.
+Proof. vm_compute. repeat split; reflexivity. Qed.
+
+(* the same history with a number on which isinstance(.., int) raises: OUTSIDE the guard of incident_recorded /
+   nothing_abandoned, and the real code does lose both incidents (replayed by the oracle: num = an object whose
+   __class__ property raises; reported as oracle/incident-lost-hostile-num) *)
+Example ex_hostile_num_lost :
+  let s := fst (run (mkCfg true false NoFault) init (odd_history NumHostile)) in
+  i_files (s_inc s) = [] /\ i_recorded (s_inc s) = 0 /\ i_declared (s_inc s) = 4 /\ i_junk (s_inc s) = 2.
+Proof. vm_compute. repeat split; reflexivity. Qed.
+
+Example ex_hostile_num_stuck_trailing :
+  let s := fst (run (mkCfg true true NoFault) init (odd_history NumHostile ++ [Timer])) in
+  i_files (s_inc s) = [] /\ i_recorded (s_inc s) = 0 /\ i_declared (s_inc s) = 3 /\ is_some (i_rep (s_inc s)) = true.
+Proof. vm_compute. repeat split; reflexivity. Qed.
+
+Theorem nothing_abandoned_refuted_hostile : exists c ops, i_junk (s_inc (fst (run c init ops))) <> 0.
+Proof. exists (mkCfg true false NoFault), (odd_history NumHostile). vm_compute. discriminate. Qed.
+
+(* the sort key before 7a22019 (`lambda a: a['num']`): were it back, a plain non-integer number would do the same.
+   General: the raw key raises on every list of two or more events one of which is not integer-numbered ... *)
+Lemma raw_key_raises l : (2 <= List.length l)%nat -> forallb is_int l = false -> sort_raises KeyRaw l = true.
+Proof.
+  intros H1 H2. unfold sort_raises. rewrite H2. cbn [negb]. rewrite andb_true_r. apply Z.leb_le. lia.
+Qed.
+
+(* ... and as a regression statement about the logger model (first [..|..]: provable whichever key is translated) *)
+Theorem raw_sort_key_loses_incidents : incident_sort_key = KeyRaw ->
+  let s := fst (run (mkCfg true false NoFault) init (odd_history NumOdd)) in
+  i_files (s_inc s) = [] /\ i_recorded (s_inc s) = 0 /\ i_junk (s_inc s) = 2.
+Proof. intros H. vm_compute in H. first [discriminate H | vm_compute; repeat split; reflexivity]. Qed.
+
 (* ================================================================== E. catch-up subscriptions, written files *)
+Lemma sort_catchup_perm l : Permutation (sort_catchup l) l.
+Proof. apply sort_with_perm. Qed.
+
+Lemma sort_catchup_sorted l : StronglySorted (key_le catchup_sort_key) (sort_catchup l) /\ StronglySorted int_num_le (sort_catchup l).
+Proof.
+  split; [apply sort_with_sorted|]. eapply sorted_weaken; [|apply sort_with_sorted]. unfold catchup_sort_key. apply key_le_ints.
+Qed.
+
+(* EXACT guard: no buffered number makes isinstance(.., int) raise (nohost b).  Then the batch is everything buffered, in
+   key order: integer numbers in number order, every other number where -1 sits *)
 Theorem subscriber_bounded_after_catchup maxq maxfl catch_up b ops : 0 <= maxq -> 0 <= maxfl ->
-  let '(s0, direct) := sub_subscribe catch_up b in
+  let '(s0, direct, raised) := sub_subscribe catch_up b in
   let s := fold_left (sub_step maxq maxfl) ops s0 in
   q_queue s0 = [] /\ q_inflight s0 = 0 /\
-  (catch_up = true -> Permutation direct (all_buffered b) /\ StronglySorted num_le direct) /\
+  (catch_up = true -> nohost b ->
+     raised = false /\ Permutation direct (all_buffered b) /\ StronglySorted (key_le catchup_sort_key) direct /\
+     StronglySorted int_num_le direct) /\
   Z.of_nat (List.length (q_queue s)) <= maxq /\ 0 <= q_inflight s <= maxfl /\
   subseq (q_delivered s ++ q_queue s) (q_emitted s).
 Proof.
   intros Hq Hf. unfold sub_subscribe, catchup.
-  split; [reflexivity|]. split; [reflexivity|]. split.
-  - intros ->. split; [apply sort_perm | apply sort_sorted].
-  - destruct (subscriber_bounded maxq maxfl ops Hq Hf) as (H1 & H2 & _ & H4). unfold sub_run in *. cbv zeta in *.
-    split; [exact H1|]. split; [exact H2 | exact H4].
+  assert (G : let s := fold_left (sub_step maxq maxfl) ops sub_init in
+              Z.of_nat (List.length (q_queue s)) <= maxq /\ 0 <= q_inflight s <= maxfl /\
+              subseq (q_delivered s ++ q_queue s) (q_emitted s)).
+  { destruct (subscriber_bounded maxq maxfl ops Hq Hf) as (H1 & H2 & _ & H4). unfold sub_run in *. cbv zeta in *.
+    split; [exact H1|]. split; [exact H2 | exact H4]. }
+  cbv zeta in G.
+  destruct (catch_up && sort_raises catchup_sort_key (all_buffered b)) eqn:E.
+  - split; [reflexivity|]. split; [reflexivity|]. split; [|exact G].
+    intros -> Hh. cbn [andb] in E. unfold nohost in Hh. unfold catchup_sort_key, sort_raises in E. congruence.
+  - split; [reflexivity|]. split; [reflexivity|]. split; [|exact G].
+    intros -> _. split; [reflexivity|]. split; [apply sort_catchup_perm|]. apply sort_catchup_sorted.
 Qed.
+
+(* OUTSIDE the guard: the subscriber is handed no catch-up batch at all (subscribe raises after registering send()) *)
+Theorem catchup_lost_when_sort_raises b :
+  existsb is_hostile (all_buffered b) = true -> sub_subscribe true b = (sub_init, [], true).
+Proof. intros H. unfold sub_subscribe, catchup, catchup_sort_key, sort_raises. rewrite H. reflexivity. Qed.
 
 Theorem filter_reads_back above strip final_bz2 inplace recs :
   filter_run above strip final_bz2 inplace recs = Some (filter (filter_keep above strip) recs).
@@ -852,22 +1138,23 @@ Proof. reflexivity. Qed.
 Theorem trigger_in_window_recorded c f fac lvl ok rp id :
   c_fault c = NoFault -> c_qual c = true -> i_rep (s_inc (f_s f)) = None ->
   incident_level <= lvl -> cmpZ threshold_drop_cmp lvl (threshold_of (s_thr (f_s f)) fac) = false ->
-  0 <= limit_of (s_sizes (f_s f)) fac lvl ->
-  let e := mkEv (s_seq (f_s f) + 1) fac lvl ok id in
+  0 <= limit_of (s_sizes (f_s f)) fac lvl -> nohost (s_bufs (f_s f)) ->
+  let e := mkEv (s_seq (f_s f) + 1) fac lvl ok id NumInt in
   let '(f', r, n) := fcall c f (Msg None fac lvl ok rp id) in
   r = Some (e_num e) /\ f_closing f' = f_closing f /\ n = [] /\
   (c_trailing c = true -> exists lines, i_rep (s_inc (f_s f')) = Some (mkRep e lines TRAILING_EVENT_LIMIT true)) /\
   (c_trailing c = false -> exists lines, i_files (s_inc (f_s f')) = i_files (s_inc (f_s f)) ++ [e :: lines]).
 Proof.
-  intros Hf Hq Hr Hl Hthr Hlim. cbv zeta.
+  intros Hf Hq Hr Hl Hthr Hlim Hnh. cbv zeta.
   unfold fcall. rewrite window_inactive.
   destruct f as [s closing]. cbn [f_s f_closing] in *.
   unfold call_nt. cbn [set_zombie with_inc s_seq s_sizes s_thr s_bufs s_inc]. rewrite next_num_spec.
-  unfold msg_inner. cbn [s_thr s_sizes s_bufs s_inc s_seq e_lvl e_fac]. rewrite Hthr.
+  unfold msg_inner. change (kind_of None) with NumInt. cbn [s_thr s_sizes s_bufs s_inc s_seq e_lvl e_fac]. rewrite Hthr.
   set (i0 := mkInc (i_rep (s_inc s)) false (i_declared (s_inc s)) (i_recorded (s_inc s)) (i_files (s_inc s)) (i_junk (s_inc s))).
-  set (e := mkEv (s_seq s + 1) fac lvl ok id).
+  set (e := mkEv (s_seq s + 1) fac lvl ok id NumInt).
   assert (Hr0 : i_rep i0 = None) by exact Hr.
-  destruct (incident_recorded c (s_sizes s) (s_bufs s) i0 e Hf Hq Hl Hr0 eq_refl Hlim) as (Hx & Hnt & Htr).
+  assert (Hn0 : nohost (x_bufs (add_event c (s_sizes s) (s_bufs s) i0 e))) by (apply nohost_add_event; [exact Hnh | reflexivity]).
+  destruct (incident_recorded c (s_sizes s) (s_bufs s) i0 e Hf Hq Hl Hr0 eq_refl Hlim Hn0) as (Hx & Hnt & Htr).
   set (a := add_event c (s_sizes s) (s_bufs s) i0 e) in *.
   assert (Hn : x_notified a = false).
   { subst a. destruct (add_event_unfold c (s_sizes s) (s_bufs s) i0 e) as (q' & r & _ & _ & _ & _ & H5). cbv zeta in H5.
@@ -929,4 +1216,35 @@ Proof.
     vm_compute. repeat split; reflexivity.
   - exists [ICalls [trig 0 30] None; ITimer [trig 1 30] []; ITimer [] []; ITimer [] []].
     vm_compute. repeat split; reflexivity.
+Qed.
+
+(* ================================================================== G. the statements of props/C18.v at the real limits *)
+Lemma real_limits_nonneg : 0 <= MAX_QUEUE_SIZE /\ 0 <= MAX_IN_FLIGHT.
+Proof. unfold MAX_QUEUE_SIZE, MAX_IN_FLIGHT. split; discriminate. Qed.
+
+Theorem subscriber_bounded_real ops :
+  let s := sub_run MAX_QUEUE_SIZE MAX_IN_FLIGHT ops in
+  Z.of_nat (List.length (q_queue s)) <= MAX_QUEUE_SIZE /\ 0 <= q_inflight s <= MAX_IN_FLIGHT /\
+  subseq (q_delivered s) (q_emitted s) /\ subseq (q_delivered s ++ q_queue s) (q_emitted s).
+Proof. destruct real_limits_nonneg. apply subscriber_bounded; assumption. Qed.
+
+Theorem subscriber_bounded_after_catchup_real catch_up b ops :
+  let '(s0, direct, raised) := sub_subscribe catch_up b in
+  let s := fold_left (sub_step MAX_QUEUE_SIZE MAX_IN_FLIGHT) ops s0 in
+  q_queue s0 = [] /\ q_inflight s0 = 0 /\
+  (catch_up = true -> nohost b ->
+     raised = false /\ Permutation direct (all_buffered b) /\ StronglySorted (key_le catchup_sort_key) direct /\
+     StronglySorted int_num_le direct) /\
+  Z.of_nat (List.length (q_queue s)) <= MAX_QUEUE_SIZE /\ 0 <= q_inflight s <= MAX_IN_FLIGHT /\
+  subseq (q_delivered s ++ q_queue s) (q_emitted s).
+Proof. destruct real_limits_nonneg. apply subscriber_bounded_after_catchup; assumption. Qed.
+
+(* the lines of an incident file: a permutation of what was buffered, ordered by the translated key; the events with
+   integer numbers in number order; the others (key -1) in the order the buffers hold them *)
+Theorem incident_complete l :
+  (forall x, In x (sort_by_num l) <-> In x l) /\ StronglySorted num_le (sort_by_num l) /\
+  StronglySorted int_num_le (sort_by_num l) /\
+  filter (fun x => negb (is_int x)) (sort_by_num l) = filter (fun x => negb (is_int x)) l.
+Proof.
+  split; [intros x; apply sort_in|]. split; [apply sort_sorted|]. split; [apply sort_sorted_ints | apply sort_stable_odd].
 Qed.
